@@ -116,6 +116,7 @@ def run(ctx):
 
 def hstrp_layer(ctx, repo, hci, dr, hdap_ci, hdap_stub):
     I = Interp(repo)
+    I.uninterpreted_arith = True
     install_decoder(I, repo, [("hdap", hdap_stub)])
     # payload.as_bytes of the stub: marker bytes (must never be sent in an ack)
     I.summaries[repo.find_method(hdap_ci, "as_bytes").qualname] = lambda I_, fi, args, kw, bc: ABits([I_.atom_form(("payload-byte", i)) for i in range(16)], "bytes")
@@ -202,6 +203,7 @@ def hstrp_layer(ctx, repo, hci, dr, hdap_ci, hdap_stub):
     # connection_lost resets the flag
     cl = repo.find_method(hci, "connection_lost")
     I2 = Interp(repo)
+    I2.uninterpreted_arith = True
 
     def run_cl(st):
         I2.st = st
@@ -234,6 +236,7 @@ def rrs_layer(ctx, repo, hdap_ci, hdap_stub):
         return mk
 
     I3 = Interp(repo)
+    I3.uninterpreted_arith = True
     install_decoder(I3, repo, [(f"rrs:{n}", rrs_maker(n)) for n in rrs_types] + [("hdap", hdap_stub)])
     I3.summaries[repo.find_method(ip_ci, "as_ip").qualname] = lambda I_, fi, args, kw, bc: "10.0.0.100"
 
